@@ -188,7 +188,7 @@ ATTR_VARIANTS = [
 ]
 
 
-def oracle_docs(a):
+def _oracle_docs_failures(a):
     import io
 
     from lxml import etree
@@ -199,7 +199,8 @@ def oracle_docs(a):
 
     c, words, attrs = a["content"], a["words"], a.get("attrs", [])
     ns = a.get("ns")  # {"decls": [prefix...], "first": bool, "split": bool}
-    dtd_text = G.dtd_doc(c)
+    kinds = a.get("kinds") or {}
+    dtd_text = G.dtd_doc(c, kinds=kinds)
     plain = "  ".join(ATTR_VARIANTS[i][0] for i in attrs)
     if ns:
         decls = "  ".join(f'xmlns:{p} CDATA #FIXED "urn:{p}"' for p in ns["decls"])
@@ -214,7 +215,7 @@ def oracle_docs(a):
     try:
         dtd = etree.DTD(io.StringIO(dtd_text))
     except etree.DTDParseError:
-        return None
+        return
     passes = [({}, False)]
     if restricted(c):
         passes.append(({"compound_fields": True}, True))
@@ -222,7 +223,8 @@ def oracle_docs(a):
         g = CG.run_pipeline({"s.dtd": dtd_text}, **opts)
         try:
             if g.error is not None:
-                return f"generation failed ({opts}): {type(g.error).__name__}: {g.error}"
+                yield f"generation failed ({opts}): {type(g.error).__name__}: {g.error}"
+                continue
             R = g.classes()["R"]
             ctx = XmlContext()
             parser = XmlParser(context=ctx, config=ParserConfig(fail_on_unknown_properties=True, fail_on_unknown_attributes=True, fail_on_converter_warnings=True))
@@ -238,22 +240,24 @@ def oracle_docs(a):
                 if ns:
                     lastp = ns["decls"][-1]
                     at += "".join(f' xmlns:{p}="urn:{p}"' for p in ns["decls"]) + f' {lastp}:title="T{len(w)}"'
-                doc = f"<r{at}>" + "".join(f"<{n}>v{i}</{n}>" for i, n in enumerate(w)) + "</r>"
+                doc = f"<r{at}>" + "".join(G.dtd_child_xml(n, i, kinds) for i, n in enumerate(w)) + "</r>"
                 root = etree.fromstring(doc.encode())
                 if not dtd.validate(root):
                     continue
                 try:
                     obj = parser.from_string(doc, R)
                 except Exception as e:  # noqa: BLE001
-                    return f"DTD-valid document {doc} rejected ({opts}): {type(e).__name__}: {e}"
+                    yield f"DTD-valid document {doc} rejected ({opts}): {type(e).__name__}: {e}"
+                    continue
                 # DTDs are prefix-sensitive: serialise with the prefixes the DTD declares
                 user_map = {p: f"urn:{p}" for p in ns["decls"]} if ns else None
                 out = XmlSerializer(context=ctx).render(obj, ns_map=user_map)
                 back = etree.fromstring(out.encode())
-                got = [(ch.tag, ch.text) for ch in back]
-                exp = [(n, f"v{i}") for i, n in enumerate(w)]
+                got = [(ch.tag, etree.tostring(ch, method="c14n", with_tail=False)) for ch in back]
+                exp = [(ch.tag, etree.tostring(ch, method="c14n", with_tail=False)) for ch in root]
                 if sorted(got) != sorted(exp):
-                    return f"document {doc} re-serialised with other content ({opts}): {out}"
+                    yield f"document {doc} re-serialised with other content ({opts}): {out}"
+                    continue
                 # attribute defaults and fixed values materialised as the DTD prescribes
                 exp_attrs = dict(given)
                 for i in attrs:
@@ -267,16 +271,30 @@ def oracle_docs(a):
                 if ns:
                     exp_attrs["{urn:%s}title" % ns["decls"][-1]] = f"T{len(w)}"
                 if dict(back.attrib) != exp_attrs:
-                    return f"document {doc}: attributes after the round trip {dict(back.attrib)}, the DTD prescribes {exp_attrs}"
+                    yield f"document {doc}: attributes after the round trip {dict(back.attrib)}, the DTD prescribes {exp_attrs}"
+                    continue
                 if ordered:
                     if got != exp:
-                        return f"document {doc} re-serialised in another element order with compound fields: {out}"
+                        yield f"document {doc} re-serialised in another element order with compound fields: {out}"
+                        continue
                     if not dtd.validate(back):
-                        return f"document {doc} re-serialised as {out}, which is not DTD-valid"
+                        yield f"document {doc} re-serialised as {out}, which is not DTD-valid"
+                        continue
         finally:
             g.close()
-    return None
+    return
 
+
+
+def oracle_docs(a):
+    """the first failure no listed finding covers, else the first failure, else None"""
+    first = None
+    for msg in _oracle_docs_failures(a):
+        if first is None:
+            first = msg
+        if not covered_docs(a, msg):
+            return msg
+    return first
 
 def _el(n, o="once"):
     return {"n": n, "o": o}
@@ -309,7 +327,10 @@ def gen_docs(rng, tier):
         ns = None
         if rng.random() < 0.5:
             ns = {"decls": rng.sample(["dc", "ex", "p3"], rng.randint(1, 3)), "first": rng.random() < 0.5, "split": rng.random() < 0.5}
-        yield {"content": c, "words": [G.sample_word(rng, p) for _ in range(4)], "attrs": attrs, "ns": ns}
+        kinds = None
+        if rng.random() < 0.5:
+            kinds = {n: rng.choice(["pcdata", "empty", "any", "mixed", "elems"]) for n in set(G.dtd_names(c))}
+        yield {"content": c, "words": [G.sample_word(rng, p) for _ in range(4)], "attrs": attrs, "ns": ns, "kinds": kinds}
 
 
 def true_max(p, n):
@@ -318,8 +339,28 @@ def true_max(p, n):
     return c02.true_max(p, n)
 
 
+def any_text_after_child(a, msg):
+    """the failing document (quoted in the message) has a child that is declared ANY and carries character data
+    after a child element of its own"""
+    import re
+
+    from lxml import etree
+
+    kinds = a.get("kinds") or {}
+    m = re.search(r"document (<r.*?</r>|<r[^>]*/>)", msg, re.S)
+    if not m or "other content" not in msg:
+        return False
+    try:
+        root = etree.fromstring(m.group(1).encode())
+    except etree.XMLSyntaxError:
+        return False
+    return any(kinds.get(ch.tag) == "any" and any((g.tail or "").strip() for g in ch) for ch in root)
+
+
 def covered_docs(a, msg):
     c = a["content"]
+    if any_text_after_child(a, msg):
+        return "C16-any-drops-text"
     dup = len(set(G.dtd_names(c))) != len(G.dtd_names(c))
     if not dup:
         return None
@@ -395,11 +436,94 @@ def gen_e2e(rng, tier):
         yield {"content": c, "words": [G.sample_word(rng, p) for _ in range(4)], "attrs": attrs, "ns": ns}
 
 
+# ------------------------------------------------------------------ attribute declarations (Gen/DtdAttrs.lean)
+def gen_dtd_attr(rng, tier):
+    kinds = ["required", "implied", "fixed", "none"]
+    yield {"decls": [{"default": k, "value": v, "type": "CDATA"} for k in kinds for v in (None, "D")]}
+    for _ in range(n_cases(tier, 100, 2000)):
+        yield {"decls": [G.gen_dtd_attr_decl(rng, grammatical=False) for _ in range(rng.randint(1, 6))]}
+
+
+def impl_dtd_attr(a):
+    try:
+        return ok(G.real_dtd_attr(a["decls"]))
+    except Exception as e:  # noqa: BLE001
+        return err("LEAK:" + type(e).__name__)
+
+
+def gen_dtd_attr_fields(rng, tier):
+    kinds = ["required", "implied", "fixed", "none"]
+    for tp in ("CDATA", "NMTOKEN", "enum"):
+        yield {"decls": [{"default": k, "value": ("x" if k in ("fixed", "none") else None), "type": tp} for k in kinds]}
+    for _ in range(n_cases(tier, 60, 800)):
+        yield {"decls": [G.gen_dtd_attr_decl(rng) for _ in range(rng.randint(1, 6))]}
+
+
+def impl_dtd_attr_fields(a):
+    dtd = "<!ELEMENT r (#PCDATA)>\n" + G.dtd_attlist(a["decls"])
+    g = CG.run_pipeline({"s.dtd": dtd})
+    try:
+        if g.error is not None:
+            return err("GEN:" + type(g.error).__name__)
+        fs = {f.metadata.get("name", f.name): f for f in dataclasses.fields(g.classes()["R"])}
+        return ok([G.dataclass_field_shape(fs[f"d{i}"]) if f"d{i}" in fs else None for i in range(len(a["decls"]))])
+    finally:
+        g.close()
+
+
+def classify_dtd_attr(a, out):
+    ks = sorted({d["default"] + ("+v" if d["value"] is not None else "") for d in a["decls"]})
+    return ",".join(ks) + ("/err" if isinstance(out, dict) and "err" in out else "")
+
+
+# ------------------------------------------------------------------ element declarations (Gen/DtdElem.lean)
+def gen_dtd_elem(rng, tier):
+    decls = ["EMPTY", "ANY", "(#PCDATA)", "(#PCDATA|a)*", "(#PCDATA|a|b|c)*", "(a)", "(a,b)", "(a|b)+"]
+    for d in decls:
+        yield {"decl": d}
+    for c in contents(rng, n_cases(tier, 150, 3000)):
+        if valid_dtd(c):
+            body = G.dtd_text_of(c)
+            yield {"decl": body if body.startswith("(") else "(" + body + ")"}
+    names = ["a", "b", "c", "d"]
+    for _ in range(n_cases(tier, 30, 300)):
+        k = rng.randint(1, 4)
+        yield {"decl": "(#PCDATA|" + "|".join(rng.sample(names, k)) + ")*"}
+
+
+def _dtd_of_decl(decl):
+    return f"<!ELEMENT r {decl}>\n" + "".join(f"<!ELEMENT {n} (#PCDATA)>\n" for n in "abcdef")
+
+
+def gen_dtd_elem_args(rng, tier):
+    for a in gen_dtd_elem(rng, tier):
+        try:
+            args, _ = G.real_dtd_elem(_dtd_of_decl(a["decl"]))
+        except Exception:  # noqa: BLE001
+            args = {"type": "undefined", "content": None}
+        yield {**args, "decl": a["decl"]}
+
+
+def impl_dtd_elem(a):
+    try:
+        return ok(G.real_dtd_elem(_dtd_of_decl(a["decl"]))[1])
+    except AssertionError as e:
+        return err("SHAPE:" + str(e)[:60])
+    except Exception as e:  # noqa: BLE001
+        return err("LEAK:" + type(e).__name__)
+
+
 CORRS = [
     Corr("c16.e2e", gen_e2e, impl_e2e, spec=spec_e2e,
          describe="spec-level: DTD (content model, ATTLIST variants, xmlns declarations) -> real pipeline (default and compound fields) -> strict parse of valid documents -> re-serialise; expected: faithful"),
     Corr("gen.dtd_nsmap", gen_nsmap, impl_nsmap, nontrivial=lambda a, o: len(a["attrs"]) > 1,
          describe="DtdParser.build_ns_map on constructed attribute lists vs model"),
+    Corr("gen.dtd_attr", gen_dtd_attr, impl_dtd_attr, classify=classify_dtd_attr,
+         describe="DtdMapper.build_attribute / build_attribute_restrictions on constructed DtdAttribute objects (also ungrammatical keyword/value combinations) vs model"),
+    Corr("gen.dtd_attr_fields", gen_dtd_attr_fields, impl_dtd_attr_fields, classify=classify_dtd_attr,
+         describe="ATTLIST declarations (CDATA, NMTOKEN, enumerations x #REQUIRED/#IMPLIED/#FIXED/default): whole real pipeline + stand-in renderer, init and default of every field vs model"),
+    Corr("gen.dtd_elem", gen_dtd_elem_args, impl_dtd_elem, classify=lambda a, o: a["type"] + ("/err" if "err" in o else ""),
+         describe="<!ELEMENT r …> (EMPTY, ANY, (#PCDATA), mixed, element content): DtdParser + DtdMapper.build_class + FLATTEN handlers + ProcessMixedContentClass: kind and element fields of the class vs model"),
     Corr("gen.dtd_sites", gen_sites, impl_sites, canon=canon_sites, describe="DtdParser + DtdMapper.build_content vs model"),
     Corr("gen.dtd_occurs", gen_sites, impl_occurs, canon=canon_occ, describe="DtdMapper attrs through the three occurrence handlers vs model"),
     Corr("gen.dtd_fields", gen_fields, impl_fields, canon=canon_fields,
@@ -412,19 +536,48 @@ def finding_dup():
     return (msg is not None and "rejected" in msg, msg or "the document now parses")
 
 
+def finding_any_text():
+    """<!ELEMENT r (b)> <!ELEMENT b ANY>: <r><b>tx<z>q</z>ty<d>dd</d></b></r> loses `ty`"""
+    import io
+
+    from lxml import etree
+    from xsdata.formats.dataclass.context import XmlContext
+    from xsdata.formats.dataclass.parsers import XmlParser
+    from xsdata.formats.dataclass.serializers import XmlSerializer
+
+    dtd_text = "<!ELEMENT r (b)>\n<!ELEMENT b ANY>\n<!ELEMENT z (#PCDATA)>\n<!ELEMENT d (#PCDATA)>\n"
+    doc = "<r><b>tx<z>q</z>ty<d>dd</d></b></r>"
+    assert etree.DTD(io.StringIO(dtd_text)).validate(etree.fromstring(doc))
+    g = CG.run_pipeline({"s.dtd": dtd_text})
+    try:
+        if g.error is not None:
+            return (False, f"generation failed: {g.error}")
+        ctx = XmlContext()
+        obj = XmlParser(context=ctx).from_string(doc, g.classes()["R"])
+        out = XmlSerializer(context=ctx).render(obj)
+        back = etree.fromstring(out.encode())
+        lost = "ty" not in "".join(back.itertext())
+        return (lost, f"{doc} comes back as {out.split('?>')[-1].strip()}")
+    finally:
+        g.close()
+
+
 FINDINGS = {
+    "C16-any-drops-text": finding_any_text,
     "C16-duplicate-name-sites": finding_dup,
 }
 TRUSTED = [
     "lxml/libxml2 DTD parser delivers the content tree (DtdParser is a thin reader) and is the independent validator",
     "jinja2/ruff absent: harness/standin_render.py transliterates the templates",
 ]
-ASSUMPTIONS = ["child elements are (#PCDATA); ANY, mixed content and xmlns attribute declarations are exercised only by the oracle's default shapes"]
+ASSUMPTIONS = ["attribute types: the default/fixed logic is modelled for string-valued types (CDATA, NMTOKEN(S), ID/IDREF, enumerations); the token/ID semantics of the types themselves are exercised by the oracle only"]
 LEVEL_TEXT = (
     "Partial. Lean theorems (Props/C16.lean) for DtdMapper.build_content (after the repair: occurrence indicators of sequence and choice "
     "nodes go to the restrictions path, as for XSD) and the occurrence handlers: for every content model with distinct element names, wherever "
     "the occurrence indicators sit, a non-list field is never repeated and a required field is always present in a DTD-valid document, and a list "
-    "field is needed; the mapper's fields are literally the XSD mapper's sites of the same particle; counterexample theorem for repeated names. Tied to /repo by "
+    "field is needed; the mapper's fields are literally the XSD mapper's sites of the same particle; counterexample theorem for repeated names. "
+    "Attribute declarations: whatever a DTD-valid element carries for #REQUIRED / #IMPLIED / #FIXED / defaulted attributes is accepted and read as the value the DTD prescribes "
+    "(dtd_attribute_faithful). Element declarations: mixed content gives one wildcard list, EMPTY no fields, (#PCDATA) a text field; ANY gives a single wildcard field that drops character data after a child (counterexample theorem dtd_any_drops_text, finding C16-any-drops-text). Tied to /repo by "
     "correspondence of DtdMapper sites, the handlers and the generated field shapes of the whole pipeline; documents and attribute defaults end to end by the oracle."
 )
 LEVEL_NOTE = "Trusted: Lean kernel, particle language spec, libxml2 DTD reader/validator, stand-in renderer, sampling correspondence."
